@@ -162,8 +162,11 @@ struct ChildCtx {
 	std::string pending;    // report text of the current step emitted on death
 
 	void report(const std::string &s) { std::string t = s + "\n"; size_t off = 0; while (off < t.size()) { ssize_t w = write(report_fd, t.data() + off, t.size() - off); if (w <= 0) break; off += (size_t)w; } }
+	uint64_t seed_base = 0; int step_no = 0;
 	void begin_step(const Dev &d, int head)
 	{
+		// fresh coins for every library call: what the reliable broadcast drew meanwhile depends on timing
+		coins.reseed(seed_base + 0x9e3779b97f4a7c15ULL * (uint64_t)(++step_no));
 		dev = d; dev_active = true; ops = 0; seg = 0; off = 0; bc_cur = IP(-1, -1); po_cnt.clear(); pi_cnt.clear();
 		tap.begin(head);
 	}
@@ -307,7 +310,8 @@ static void child_main(const Case &c, int me, int report_fd, int (*pp)[MAXN][2],
 		if (!freopen(f.c_str(), "w", stderr)) {}
 	}
 	ChildCtx cx; cx.n = c.n; cx.me = me; cx.report_fd = report_fd; mpz_set(cx.tap.q, c.q);
-	coins.reseed((c.seed * 1000003ULL + c.idx) * 1000003ULL + (uint64_t)me * 7919ULL + 13);
+	cx.seed_base = (c.seed * 1000003ULL + c.idx) * 1000003ULL + (uint64_t)me * 7919ULL + 13;
+	coins.reseed(cx.seed_base);
 	coins.entries.clear(); coins.log = true;
 	std::vector<int> uin, uout, bin, bout; std::vector<std::string> keys;
 	for (int i = 0; i < c.n; i++) {
